@@ -534,7 +534,7 @@ var inPlaceSites = map[string]string{
 // application was given, say - scribbles on memory the library has handed out or was lent.
 func c17InPlaceSites(c *Ctx) {
 	const rule = "C17.inplace-mask-call-sites"
-	c.R.Rule(rule, 6, "MaskFrameInPlace / MaskFrameInPlaceWith / UnmaskFrameInPlace are applied only where the payload is a copy or a fresh buffer of the library's own")
+	c.R.Rule(rule, 3, "MaskFrameInPlace / MaskFrameInPlaceWith / UnmaskFrameInPlace are applied only where the payload is a copy or a fresh buffer of the library's own")
 	targets := map[*ssa.Function]bool{}
 	for _, n := range []string{"MaskFrameInPlace", "MaskFrameInPlaceWith", "UnmaskFrameInPlace"} {
 		if f := c.fn(rule, ws, n); f != nil {
@@ -564,6 +564,9 @@ func c17InPlaceSites(c *Ctx) {
 						break
 					}
 				}
+				if !found {
+					why, found = c.reviewedThroughCallers(name, inPlaceSites, 0, map[string]bool{})
+				}
 				if found {
 					c.R.OK(rule, key, pos, why)
 				} else {
@@ -573,4 +576,27 @@ func c17InPlaceSites(c *Ctx) {
 			}
 		}
 	}
+}
+
+// reviewedThroughCallers: a site that moved into an unexported helper is covered when every
+// function that can call the helper (transitively, through further such helpers) is itself a
+// reviewed site of the table - a helper that two reviewed callers share, say.
+func (c *Ctx) reviewedThroughCallers(name string, table map[string]string, depth int, seen map[string]bool) (string, bool) {
+	if w, ok := table[name]; ok {
+		return w, true
+	}
+	c.owners()
+	if depth > 4 || seen[name] || c.notHelper[name] || len(c.callersOf[name]) == 0 {
+		return "", false
+	}
+	seen[name] = true
+	var from []string
+	for caller := range c.callersOf[name] {
+		if _, ok := c.reviewedThroughCallers(caller, table, depth+1, seen); !ok {
+			return "", false
+		}
+		from = append(from, caller)
+	}
+	sort.Strings(from)
+	return "helper reached only from reviewed sites: " + strings.Join(from, ", "), true
 }
